@@ -9,7 +9,7 @@ leaf puts into its templates.
 '''
 import ast
 
-from ..astutil import txt, call_name, receiver, walk_local
+from ..astutil import txt, call_name, receiver, walk_local, calls_in, dotted
 from ..loader import AnalysisError
 
 TREPR = 'valjean.javert.table_repr'
@@ -1149,3 +1149,106 @@ def check_row_select(ctx):
                        if not from_verdict and from_stat else None)
     ctx.floor('ROW-SELECT', n, 1, 'row selectors (np.where) in the detailed '
               'tables')
+
+
+# ------------------------------------------------------------ HL-SOURCE ---
+
+def _result_chains(func, pname='result'):
+    """Maximal attribute chains rooted at the result parameter."""
+    chains = set()
+    inner = set()
+    for node in ast.walk(func.node):
+        if isinstance(node, ast.Attribute):
+            dot = dotted(node)
+            if dot and dot.split('.')[0] == pname:
+                chains.add(dot)
+                if isinstance(node.value, ast.Attribute):
+                    inner.add(dotted(node.value))
+    return {c for c in chains if c not in inner} | {
+        c for c in chains if c.count('.') == 1 and c not in inner}
+
+
+def _flow_sources(func, expr, pname='result'):
+    """('verdict' | 'inputs') kinds of result-rooted data the expression
+    depends on (flow-insensitive closure over the local names)."""
+    from . import verdict as V
+    kinds = set()
+    for chain in _result_chains(func, pname):
+        derived = V.derived_names(func.node, {chain})
+        if V.mentions(expr, derived - {chain}, (chain,)) or any(
+                isinstance(n, ast.Attribute) and (dotted(n) or '').startswith(
+                    chain) for n in ast.walk(expr)):
+            kinds.add('inputs' if chain.startswith(f'{pname}.test')
+                      else 'verdict')
+    return kinds
+
+
+def check_hl_source(ctx):
+    """The highlights of a table come from what the result RECORDED (its
+    per-key / per-bin verdicts: dict_res, oracles(), equal ...), not from a
+    comparison re-made by the representer on the inputs of the test
+    (result.test...), formatted or not: two criteria can disagree (values
+    equal but printed differently, different but printed alike, NaN), and
+    then the table marks a passing result or shows a failing one unmarked."""
+    from . import verdict as V
+    program = ctx.program
+    mod = program.module(TREPR)
+    funcs = [f for f in mod.functions.values() if f.parent is None]
+    # helpers (no result parameter) that build the table: which parameters
+    # reach the highlights
+    helper_params = {}
+    for func in funcs:
+        if func.params[:1] == ['result']:
+            continue
+        for call in calls_in(func.node):
+            if call_name(call) != 'TableTemplate':
+                continue
+            hlt = next((k.value for k in call.keywords
+                        if k.arg == 'highlights'), None)
+            if hlt is None:
+                continue
+            reach = set()
+            for par in func.params:
+                derived = V.derived_names(func.node, {par})
+                if V.mentions(hlt, derived):
+                    reach.add(par)
+            helper_params[func.name] = (func, reach)
+    n = 0
+    for func in funcs:
+        if func.params[:1] != ['result']:
+            continue
+        sites = []
+        for call in calls_in(func.node):
+            if call_name(call) == 'TableTemplate':
+                hlt = next((k.value for k in call.keywords
+                            if k.arg == 'highlights'), None)
+                if hlt is not None:
+                    sites.append((call, [hlt]))
+            elif call_name(call) in helper_params and isinstance(
+                    call.func, ast.Name):
+                helper, reach = helper_params[call.func.id]
+                args = []
+                for par, arg in zip(helper.params, call.args):
+                    if par in reach:
+                        args.append(arg)
+                for kwd in call.keywords:
+                    if kwd.arg in reach:
+                        args.append(kwd.value)
+                sites.append((call, args))
+        for call, exprs in sites:
+            kinds = set()
+            for expr in exprs:
+                kinds |= _flow_sources(func, expr)
+            if not kinds:
+                continue            # constant highlights
+            n += 1
+            ctx.decide('HL-SOURCE', func,
+                       f'{func.name}: highlights of {txt(call)[:40]} derive '
+                       f'from {sorted(kinds)}',
+                       True if 'verdict' in kinds else False,
+                       at=func.where(call),
+                       detail=None if 'verdict' in kinds else
+                       'the marks are re-computed from the inputs of the '
+                       'test (result.test...) instead of the verdicts the '
+                       'result recorded')
+    ctx.floor('HL-SOURCE', n, 5, 'tables with non-constant highlights')
